@@ -56,7 +56,20 @@ pub fn run(l: &[i128]) -> Vec<i128> {
             let mut bb = Pixmap::new(40, 40).unwrap();
             a.fill_path(&path, &paint, FillRule::Winding, t, None);
             let mut diff = 0i128;
-            match path.clone().transform(t) {
+            // the reference path is rebuilt from the mapped points (Transform::map_points + PathBuilder), not taken from
+            // Path::transform, which the draw call itself uses
+            let rebuilt = {
+                let mut q: Vec<Point> = pts.chunks_exact(2).map(|c| Point::from_xy(c[0], c[1])).collect();
+                t.map_points(&mut q);
+                let mut pb2 = PathBuilder::new();
+                pb2.move_to(q[0].x, q[0].y);
+                for p in &q[1..] {
+                    pb2.line_to(p.x, p.y);
+                }
+                pb2.close();
+                pb2.finish()
+            };
+            match rebuilt {
                 Some(p2) => {
                     bb.fill_path(&p2, &paint, FillRule::Winding, Transform::identity(), None);
                     diff += a.data().iter().zip(bb.data()).filter(|(x, y)| x != y).count() as i128;
